@@ -32,6 +32,37 @@ pub struct BatchCase {
     /// batch (None: the default of 100 calls, which these short histories never reach)
     #[serde(default)]
     pub auto_waste: Option<usize>,
+    /// index of a batch whose result handle is dropped unread right after submission while the
+    /// tracker stays in use (the library tolerates that and only logs a warning)
+    #[serde(default)]
+    pub abandon: Option<usize>,
+}
+
+/// submits a batch and drops its result handle unread
+fn submit_abandoned(tr: &mut Tracker, b: &[(u64, Vec<Det>)]) {
+    match tr {
+        Tracker::BS(t) => {
+            let (mut req, res) = similari::trackers::batch::PredictionBatchRequest::<(similari::utils::bbox::Universal2DBox, Option<i64>)>::new();
+            for (s, d) in b {
+                for x in d {
+                    req.add(*s, (x.b.lib(), x.custom));
+                }
+            }
+            drop(res);
+            t.predict(req);
+        }
+        Tracker::BV(t) => {
+            let (mut req, res) = similari::trackers::batch::PredictionBatchRequest::<similari::prelude::VisualSortObservation>::new();
+            for (s, d) in b {
+                for x in d {
+                    req.add(*s, similari::prelude::VisualSortObservation::new(x.feat.as_deref(), x.q, x.b.lib(), x.custom));
+                }
+            }
+            drop(res);
+            t.predict(req);
+        }
+        _ => {}
+    }
 }
 
 fn as_history(c: &BatchCase) -> History {
@@ -94,6 +125,8 @@ pub fn check_batches(c: &BatchCase) -> CaseResult {
     let mut pendings: Vec<(usize, Pending)> = vec![];
     let mut pipelined = 0usize;
     let mut installed_keep: Option<sched::Installed> = None;
+    // scenes that were part of an abandoned batch: the tracks it started are unknown to the checker
+    let abandoned_scenes: std::cell::RefCell<BTreeMap<u64, usize>> = std::cell::RefCell::new(BTreeMap::new());
     let mut process = |bi: usize, b: &Vec<(u64, Vec<Det>)>, results: Vec<(u64, Vec<Rec>)>, tr: &Tracker, got: &mut BTreeMap<u64, Vec<Vec<Rec>>>, issued: &mut BTreeSet<u64>, live: &mut BTreeSet<u64>, check_own: bool| -> Result<(), Fail> {
         // (b) exactly one result per scene of the batch, records in submission order
         ensure!(results.len() == b.len(), "batch-result-count", "batch {}: {} results for {} scenes", bi, results.len(), b.len());
@@ -112,7 +145,7 @@ pub fn check_batches(c: &BatchCase) -> CaseResult {
                 ensure!(ids.insert(r.id), "batch-duplicate-id", "batch {} scene {}: track id {} given to two detections", bi, scene, r.id);
                 if r.length == 1 {
                     ensure!(!issued.contains(&r.id) && new_ids_in_batch.insert(r.id), "batch-id-reused", "batch {} scene {}: new track gets id {} which was issued before", bi, scene, r.id);
-                } else {
+                } else if !abandoned_scenes.borrow().contains_key(scene) {
                     ensure!(live.contains(&r.id), "batch-unknown-track", "batch {} scene {}: record continues unknown track {}", bi, scene, r.id);
                 }
             }
@@ -223,7 +256,18 @@ pub fn check_batches(c: &BatchCase) -> CaseResult {
         };
 
         let pipeline = c.drain_thread.get(bi).copied().unwrap_or(false);
-        if pipeline {
+        if c.abandon == Some(bi) {
+            for (pbi, p) in pendings.drain(..) {
+                let results = p.collect();
+                process(pbi, &batches[pbi], results, &tr, &mut got, &mut issued, &mut live, false)?;
+            }
+            for (s, _) in b {
+                let seen_calls = got.get(s).map(|v| v.len()).unwrap_or(0);
+                abandoned_scenes.borrow_mut().entry(*s).or_insert(seen_calls);
+            }
+            submit_abandoned(&mut tr, b);
+            installed_keep = installed;
+        } else if pipeline {
             // submit without waiting for the results of this or of earlier pipelined batches
             let p = tr.submit_batch(b).expect("batch tracker");
             pendings.push((bi, p));
@@ -286,11 +330,15 @@ pub fn check_batches(c: &BatchCase) -> CaseResult {
     let mut cut_calls = 0usize;
     for (scene, want) in &ref_records {
         let have = got.get(scene).cloned().unwrap_or_default();
-        ensure!(have.len() == want.len(), "batch-call-count", "scene {}: {} results from the batch tracker, {} calls of the simple tracker", scene, have.len(), want.len());
+        let lost = abandoned_scenes.borrow().get(scene).copied();
+        ensure!(have.len() + lost.is_some() as usize == want.len(), "batch-call-count", "scene {}: {} results from the batch tracker, {} calls of the simple tracker ({} abandoned)", scene, have.len(), want.len(), lost.is_some() as usize);
         let ms = &ref_margins[scene];
-        let cut = (0..want.len()).find(|i| ms[*i] < MARGIN).unwrap_or(want.len());
+        // the comparison of a scene ends at the call whose result was abandoned
+        let cut = (0..want.len()).find(|i| ms[*i] < MARGIN).unwrap_or(want.len()).min(lost.unwrap_or(usize::MAX));
         compared += cut;
-        cut_calls += want.len() - cut;
+        if (0..want.len()).any(|i| ms[i] < MARGIN && i <= cut) {
+            cut_calls += 1;
+        }
         same_up_to_ids(&want[..cut], &have[..cut], &format!("scene {} (simple vs batch tracker)", scene)).map_err(|f| Fail::new(format!("batch-refinement-{}", f.signature), f.msg))?;
     }
     let multi_scene = batches.iter().any(|b| b.len() >= 2);
@@ -305,6 +353,7 @@ pub fn check_batches(c: &BatchCase) -> CaseResult {
         .label_if(cut_calls > 0, "cut_at_fragile_call")
         .label_if(pipelined > 0, "pipelined_batches")
         .label_if(c.auto_waste.is_some() && pipelined > 0, "collection_during_pipelining")
+        .label_if(c.abandon.is_some() && !abandoned_scenes.borrow().is_empty(), "result_abandoned_mid_history")
         .label_if(c.drop_mode == 1, "dropped_with_abandoned_result"))
 }
 
@@ -318,8 +367,9 @@ pub fn batch_case(kind: Kind) -> impl Strategy<Value = BatchCase> {
         proptest::bool::weighted(0.8),
         0u8..2,
         prop_oneof![2 => Just(None), 1 => Just(Some(0usize)), 1 => Just(Some(1usize)), 1 => Just(Some(2usize))],
+        prop_oneof![3 => Just(None), 1 => (0usize..10).prop_map(Some)],
     )
-        .prop_map(|(h, nscenes, raw, choices, delays, controlled, drop_mode, auto_waste)| {
+        .prop_map(|(h, nscenes, raw, choices, delays, controlled, drop_mode, auto_waste, abandon)| {
             let scene_ids = [0u64, 7, 1_000_000_007, 3, 42];
             let mut clock = [0u16; 5];
             let mut uniq = 0u32;
@@ -351,7 +401,7 @@ pub fn batch_case(kind: Kind) -> impl Strategy<Value = BatchCase> {
                 batches.push(b);
                 drain_thread.push(dt);
             }
-            BatchCase { cfg: h.cfg, objs: h.objs, feat_dim: h.feat_dim, batches, drain_thread, choices, delays, controlled, drop_mode, auto_waste }
+            BatchCase { cfg: h.cfg, objs: h.objs, feat_dim: h.feat_dim, batches, drain_thread, choices, delays, controlled, drop_mode, auto_waste, abandon }
         })
 }
 
